@@ -1891,6 +1891,18 @@ class Effects:
             for n in _walk_no_nested(top):
                 if isinstance(n, (ast.Assign, ast.AugAssign, ast.AnnAssign)):
                     tgts = n.targets if isinstance(n, ast.Assign) else [n.target]
+                    if isinstance(n, ast.AugAssign) and isinstance(n.target, (ast.Attribute, ast.Subscript, ast.Name)):
+                        # s |= {...} / s -= {...} on a set, n += 1 on a number: commutative, i.e. a keyed update
+                        cur = self.pkg.ev(Pkg._as_load(n.target), fs)
+                        if (isinstance(n.op, (ast.BitOr, ast.BitAnd, ast.BitXor, ast.Sub)) and self.pkg.sites(cur, "set")
+                                and not self.pkg.sites(cur, "list")) or (
+                                isinstance(n.op, (ast.Add, ast.Sub, ast.Mult, ast.BitOr, ast.BitAnd)) and cur and cur <= (INT | NONE)):
+                            tn = n.target
+                            r = self.roots(tn.value, fs) if not isinstance(tn, ast.Name) else (
+                                frozenset([("free", tn.id)]) if tn.id not in fs.bound else frozenset())
+                            if r:
+                                direct.append((r, "keyed"))
+                            continue
                     for t in tgts:
                         for ft in _flat_targets(t):
                             if isinstance(ft, ast.Attribute):
